@@ -25,6 +25,8 @@ use crate::{
 
 const FD_BASE: RawFd = 1 << 30;
 const SECTOR: usize = 512;
+/// Byte range of the two root slots of a graph file (pages 1 and 2).
+const ROOT_AREA: (u64, u64) = (4096, 12288);
 const EINTR: c_int = 4;
 const EIO: c_int = 5;
 const EBADF: c_int = 9;
@@ -63,6 +65,8 @@ pub struct FsFaults {
     /// Per mille chance that a write/sync fails with EIO / ENOSPC.
     pub eio_permille: u64,
     pub enospc_permille: u64,
+    /// Opt-in: pieces smaller than a sector survive independently (finer than real disks).
+    pub subsector: bool,
 }
 
 struct Inner {
@@ -79,6 +83,8 @@ struct Inner {
     counters: BTreeMap<&'static str, u64>,
     mutating_calls: BTreeMap<usize, u64>,
     in_commit_window: BTreeSet<usize>,
+    /// Replicas whose root slots were hit by a sub-sector tear (sticky for the run).
+    subsector_root_tear: BTreeSet<usize>,
 }
 
 pub struct SimFs {
@@ -101,6 +107,7 @@ impl SimFs {
                 counters: BTreeMap::new(),
                 mutating_calls: BTreeMap::new(),
                 in_commit_window: BTreeSet::new(),
+                subsector_root_tear: BTreeSet::new(),
             }),
         }
     }
@@ -115,6 +122,10 @@ impl SimFs {
 
     pub fn take_hard_error(&self, rep: usize) -> bool {
         self.inner.borrow_mut().hard_error.remove(&rep)
+    }
+
+    pub fn had_subsector_root_tear(&self, rep: usize) -> bool {
+        self.inner.borrow().subsector_root_tear.contains(&rep)
     }
 
     pub fn is_crashed(&self, rep: usize) -> bool {
@@ -167,6 +178,13 @@ impl SimFs {
     }
 }
 
+fn tr(msg: impl FnOnce() -> String) {
+    thread_local! { static ON: bool = std::env::var_os("DAGSIM_TRACE").is_some(); }
+    if ON.with(|x| *x) {
+        eprintln!("SIMFS {}", msg());
+    }
+}
+
 fn bump(i: &mut Inner, k: &'static str) {
     *i.counters.entry(k).or_insert(0) += 1;
 }
@@ -180,11 +198,22 @@ impl Inner {
     }
 
     /// Apply the crash rule to every file of `rep`, then invalidate its descriptors.
+    ///
+    /// Default rule (sector-atomic, order-respecting): the page cache applies writes in program
+    /// order and the disk persists whole 512-byte sectors, in any order across sectors. So for
+    /// every sector touched by un-synced writes the surviving content is the durable content
+    /// with a *prefix* of the pending writes to that sector applied: none (lost), all (kept), or
+    /// the first j (background write-back happened between two writes). A multi-sector write is
+    /// torn at sector boundaries. With `subsector` (opt-in family) every (write, sector) piece
+    /// survives independently and may also be cut at a byte offset; that is finer than what
+    /// disks do and is reported separately.
     fn crash(&mut self, rep: usize, choices: u64) {
         let mut rng = Rng::new(choices ^ 0xC4A5_11ED);
         let files: Vec<usize> = self.dirs.get(&rep).map(|d| d.values().copied().collect()).unwrap_or_default();
         let in_commit = self.in_commit_window.contains(&rep);
+        let subsector = self.faults.subsector;
         let mut partial = false;
+        let mut root_tear = false;
         for f in files {
             let fs = &mut self.files[f];
             let mut base = fs.durable.clone();
@@ -195,29 +224,79 @@ impl Inner {
             let mut kept = 0;
             let mut lost = 0;
             let pending = std::mem::take(&mut fs.pending);
-            for (off, data) in pending {
-                let mut pos = 0usize;
-                while pos < data.len() {
-                    let abs = off as usize + pos;
-                    let sector_end = (abs / SECTOR + 1) * SECTOR;
-                    let n = (sector_end - abs).min(data.len() - pos);
-                    let choice = rng.below(10);
-                    let take = match choice {
-                        0..=3 => n,
-                        4..=7 => 0,
-                        _ => rng.usize_below(n + 1),
-                    };
-                    if take > 0 && (abs as u64) < len {
-                        let take = take.min((len as usize).saturating_sub(abs));
-                        if base.len() < abs + take {
-                            base.resize(abs + take, 0);
+            let mut put = |base: &mut Vec<u8>, abs: usize, bytes: &[u8]| {
+                if (abs as u64) >= len {
+                    return false;
+                }
+                let take = bytes.len().min((len as usize).saturating_sub(abs));
+                if take == 0 {
+                    return false;
+                }
+                if base.len() < abs + take {
+                    base.resize(abs + take, 0);
+                }
+                base[abs..abs + take].copy_from_slice(&bytes[..take]);
+                true
+            };
+            if subsector {
+                for (off, data) in pending {
+                    let mut pos = 0usize;
+                    while pos < data.len() {
+                        let abs = off as usize + pos;
+                        let sector_end = (abs / SECTOR + 1) * SECTOR;
+                        let n = (sector_end - abs).min(data.len() - pos);
+                        let take = match rng.below(10) {
+                            0..=3 => n,
+                            4..=7 => 0,
+                            _ => rng.usize_below(n + 1),
+                        };
+                        tr(|| format!("crash(subsector) f{f}: piece abs={abs} n={n} take={take}"));
+                        if take > 0 && put(&mut base, abs, &data[pos..pos + take]) {
+                            kept += 1;
+                        } else {
+                            lost += 1;
                         }
-                        base[abs..abs + take].copy_from_slice(&data[pos..pos + take]);
+                        if take != n || abs / SECTOR * SECTOR != abs || n != SECTOR {
+                            // Anything but whole aligned sectors can leave a sector in a state the
+                            // page cache never held.
+                            if (ROOT_AREA.0..ROOT_AREA.1).contains(&(abs as u64)) {
+                                root_tear = true;
+                            }
+                        }
+                        pos += n;
+                    }
+                }
+            } else {
+                // sector -> pieces (in program order) of pending writes falling into it
+                let mut by_sector: BTreeMap<usize, Vec<(usize, Vec<u8>)>> = BTreeMap::new();
+                for (off, data) in pending {
+                    let mut pos = 0usize;
+                    while pos < data.len() {
+                        let abs = off as usize + pos;
+                        let sector = abs / SECTOR;
+                        let n = ((sector + 1) * SECTOR - abs).min(data.len() - pos);
+                        by_sector.entry(sector).or_default().push((abs, data[pos..pos + n].to_vec()));
+                        pos += n;
+                    }
+                }
+                for (sector, pieces) in by_sector {
+                    let k = pieces.len();
+                    let j = match rng.below(10) {
+                        0..=3 => k,
+                        4..=7 => 0,
+                        _ => rng.usize_below(k + 1),
+                    };
+                    tr(|| format!("crash f{f}: sector {sector} keeps {j} of {k} pending writes"));
+                    let mut any = false;
+                    for (abs, bytes) in pieces.iter().take(j) {
+                        any |= put(&mut base, *abs, bytes);
+                    }
+                    if any {
                         kept += 1;
-                    } else {
+                    }
+                    if j < k {
                         lost += 1;
                     }
-                    pos += n;
                 }
             }
             if kept > 0 && lost > 0 {
@@ -231,6 +310,10 @@ impl Inner {
             fs.len = len;
             fs.durable_len = len;
             fs.lock = None;
+        }
+        if root_tear {
+            self.subsector_root_tear.insert(rep);
+            bump(self, "fault.subsector_root_tear");
         }
         let stale: Vec<RawFd> = self
             .fds
@@ -361,6 +444,7 @@ impl SimSys for SimFs {
         }
         let mut i = self.inner.borrow_mut();
         let Some((file, rep)) = i.file_of(fd) else { return Some(Err(EBADF)) };
+        tr(|| format!("fallocate r{rep} f{file} off={off} len={len} cur_len={}", i.files[file].len));
         if let Some(choices) = i.tick(rep) {
             i.crash(rep, choices);
             drop(i);
@@ -392,6 +476,7 @@ impl SimSys for SimFs {
         }
         let fs = &i.files[file];
         let off = off.max(0) as u64;
+        tr(|| format!("pread f{file} off={off} len={} file_len={}", buf.len(), fs.len));
         if off >= fs.len {
             return Some(Ok(0));
         }
@@ -414,6 +499,7 @@ impl SimSys for SimFs {
         let mut i = self.inner.borrow_mut();
         let Some((file, rep)) = i.file_of(fd) else { return Some(Err(EBADF)) };
         let crash = i.tick(rep);
+        tr(|| format!("pwrite r{rep} f{file} off={off} len={} crash={}", buf.len(), crash.is_some()));
         let (eintr, short, eio) = (i.faults.eintr_pct, i.faults.short_pct, i.faults.eio_permille);
         if crash.is_none() {
             if eintr > 0 && i.rng.below(100) < eintr {
@@ -489,6 +575,7 @@ impl SimFs {
         }
         let mut i = self.inner.borrow_mut();
         let Some((file, rep)) = i.file_of(fd) else { return Some(Err(EBADF)) };
+        tr(|| format!("sync r{rep} f{file} pending={}", i.files[file].pending.len()));
         if let Some(choices) = i.tick(rep) {
             i.crash(rep, choices);
             drop(i);
@@ -496,23 +583,12 @@ impl SimFs {
         }
         let eio = i.faults.eio_permille;
         if eio > 0 && i.rng.below(1000) < eio {
-            // Linux semantics after a failed fsync: each pending sector may or may not have
-            // reached the disk and the error is not repeated. Model: apply a random subset.
+            // Linux semantics after a failed fsync: nothing is guaranteed about the un-synced
+            // writes and the error is not repeated. The pending writes stay pending here; the
+            // harness restarts the replica after a hard error, and that restart applies the
+            // crash rule to them (any sector may or may not have reached the disk).
             bump(&mut i, "fault.eio_sync");
             i.hard_error.insert(rep);
-            let mut rng = Rng::new(i.rng.next_u64());
-            let fs = &mut i.files[file];
-            let pending = std::mem::take(&mut fs.pending);
-            for (off, data) in pending {
-                if rng.chance(1, 2) {
-                    let end = off as usize + data.len();
-                    if fs.durable.len() < end {
-                        fs.durable.resize(end, 0);
-                    }
-                    fs.durable[off as usize..end].copy_from_slice(&data);
-                    fs.durable_len = fs.durable_len.max(end as u64);
-                }
-            }
             return Some(Err(EIO));
         }
         let fs = &mut i.files[file];
@@ -646,6 +722,11 @@ impl Sim {
         }
         let Some(fs) = self.fs.clone() else { return };
         fs.restart(r);
+        // Cause-based signature: once a root slot has been torn *inside* a sector (only possible
+        // in the opt-in sub-sector family) every recovery failure of that replica is attributed
+        // to that cause (see known-findings.txt).
+        let tear = fs.had_subsector_root_tear(r);
+        let sig_of = |normal: &str| if tear { "root-slot-subsector-tear".to_string() } else { normal.to_string() };
         let (old_committed, had_graph) = with_rep!(&self.reps[r], rep => (rep.committed.clone(), rep.has_graph));
         let spill = SpillKind::Faulty(Rc::clone(&self.spill_faults[r]));
         self.reps[r] = new_file_rep(r, Rc::clone(&self.log), spill);
@@ -662,7 +743,7 @@ impl Sim {
         match heads {
             Err(e) => {
                 if completed {
-                    self.violation("C15", "C15.unrecoverable", "reopen-failed-after-completed-commit", format!("reopening replica {r} after a crash failed ({e}) although {} commands had been committed successfully", old_committed.len()));
+                    self.violation("C15", "C15.unrecoverable", &sig_of("reopen-failed-after-completed-commit"), format!("reopening replica {r} after a crash failed ({e}) although {} commands had been committed successfully", old_committed.len()));
                     return;
                 }
                 // No commit had completed: an error instead of a state is allowed. Start over.
@@ -696,13 +777,16 @@ impl Sim {
                         for f in self.found.iter_mut().filter(|f| f.step == step && f.detail.starts_with("after crash recovery")) {
                             f.class = format!("C15.recovered-state/{}", f.class);
                             f.property = "C15".into();
+                            if tear {
+                                f.sig = "root-slot-subsector-tear".into();
+                            }
                         }
                     }
                     None => {
                         self.violation(
                             "C15",
                             "C15.recovered-unknown-state",
-                            "recovered-state-is-no-commit",
+                            &sig_of("recovered-state-is-no-commit"),
                             format!(
                                 "replica {r} reopened with heads {:?}, which is neither the last completed commit ({:?}) nor a commit in progress ({} candidates)",
                                 ids.iter().map(short).collect::<Vec<_>>(),
